@@ -20,7 +20,7 @@ def run(ctx):
     ]
     for k in ('k_linedir.c', 'k_limits.c'):
         if os.path.exists(os.path.join(e5.KDIR, k)):
-            jobs.append(e5.kernel_job(ctx, k, harness_bound=40, timeout=600, checks='safety'))
+            jobs.append(e5.kernel_job(ctx, k, harness_bound=220, timeout=600, checks='safety'))
     ctx.run_cbmc(jobs)
     ctx.functions.update(['filter_tee_header', 'flex_main (exit path)', 'myesc'])
     output_failures(ctx)
